@@ -18,8 +18,9 @@ import (
 type cutParams struct {
 	Start  uint64
 	N      int
-	Prefix []int
+	Prefix []int // indices into Alpha
 	Free   int
+	Alpha  []int // the per-block alphabet of this unit: indices into blockOpts
 }
 
 // limiter configurations as the real flows build them (flow_pp.go, flow_aggchain_prover.go)
@@ -52,9 +53,12 @@ func (e *exec) failf(key, format string, args ...any) {
 
 func runCut(c *mc.Ctx, p cutParams) {
 	e := &exec{c: c}
-	opts := append([]int{}, p.Prefix...)
+	var opts []int
+	for _, a := range p.Prefix {
+		opts = append(opts, p.Alpha[a])
+	}
 	for i := 0; i < p.Free; i++ {
-		opts = append(opts, c.Choose(len(blockOpts), "block-layout"))
+		opts = append(opts, p.Alpha[c.Choose(len(p.Alpha), "block-layout")])
 	}
 	prev := c.Choose(3, "previous-certificate") // 0 none (StartL2Block), 1 settled, 2 in error (=> retry)
 	ct := certTypes[c.Choose(len(certTypes), "certificate-type")]
@@ -312,8 +316,11 @@ func checkLimiter(e *exec, l *layout, r *types.CertificateBuildParams, cfg limCf
 			why = "a retry certificate must not be resized in this flow"
 		}
 		key := "limiter/certificate-beyond-the-limit"
-		if got.FromBlock != from {
+		switch {
+		case got.FromBlock != from:
 			key = "limiter/first-block-changed"
+		case got.ToBlock <= lim:
+			key = "limiter/resizes-a-retry-certificate-that-must-not-be-resized"
 		}
 		e.failf(key, "%s: got %d..%d %s, want a refusal (%s)", tag, got.FromBlock, got.ToBlock,
 			descr(got.Bridges, got.Claims), why)
